@@ -131,10 +131,12 @@ CHECKS = {
             "written object at its offset, so every statement descends to any depth), C01_read_leaf_at_path (the bytes at the address "
             "of the scalar element at the end of any nested path are that element's value: what a leaf accessor and a C getter load). "
             "No bound on nesting depth, dimensions or sizes. C01_new_node_reads (node model, component rg: a freshly constructed node "
-            "holding Ref / UnionRef fields reads its scalars as given and every reference as null, wherever the allocator places it).",
+            "holding Ref / UnionRef fields reads its scalars as given and every reference as null, wherever the allocator places it). "
+            "C01_iter_index_is_memory_order (the k-th index tuple of `iter_index(shape, order)` - the writer's item order, the glue's "
+            "item order - has memory position k, for every shape and every axis permutation).",
             "Partial: references held in dynamic structs / arrays and construction from existing xobjects of the general grammar are "
-            "covered by the executable model's tie and the oracle only (for nodes: C08 / C09 theorems); input-form normalisation (nested lists / ndarray / dict -> canonical value; index order -> "
-            "memory order) is executable glue tied on every case.",
+            "covered by the executable model's tie and the oracle only (for nodes: C08 / C09 theorems); input-form normalisation (nested lists / ndarray / dict -> canonical value) is "
+            "executable glue tied on every case.",
             "7/C01"),
     "C03": (LAY + "oracle: whole-buffer diff outside the traced reservations",
             "Kernel-checked theorems: C03_frame (every slice assignment of the writer lies inside [off, off+size): the buffer keeps its "
